@@ -14,7 +14,9 @@ RENAME = {"R2B1": ("C05c", "C05"), "R2B3": ("C15c", "C15"), "R2A2": ("C04c", "C0
           "R5A1": ("C15g", "C15"), "R5A2": ("C18c", "C18"), "R5A3": ("C16c", "C16"), "R5B1": ("C17d", "C17"), "R5B2": ("C01d", "C01"),
           "R5B3": ("C02c", "C02"), "R5C1": ("C05e", "C05"), "R5C2": ("C12d", "C12"), "R5C3": ("C11e", "C11"),
           "R6A1": ("C05f", "C05"), "R6A2": ("C08c", "C08"), "R6A3": ("C11f", "C11"), "R6B1": ("C09d", "C09"), "R6B2": ("C08d", "C08"),
-          "R6B3": ("C13f", "C13"), "R6C1": ("C13g", "C13"), "R6C2": ("C14e", "C14"), "R6C3": ("C04f", "C04")}
+          "R6B3": ("C13f", "C13"), "R6C1": ("C13g", "C13"), "R6C2": ("C14e", "C14"), "R6C3": ("C04f", "C04"),
+          "R7A1": ("C13h", "C13"), "R7A2": ("C09e", "C09"), "R7A3": ("C13i", "C13"), "R7B1": ("C01e", "C01"), "R7B2": ("C09f", "C09"),
+          "R7B3": ("C13j", "C13"), "R7C1": ("C15h", "C15"), "R7C2": ("C03c", "C03"), "R7C3": ("C07e", "C07")}
 NEEDS = {
  "C01a": "is_callable_above_mark rewritten with position() (bottom-most MARK): needs nested MARKs with a callable right above the lower one and OBJ chosen with a bare MARK on top, then fixed-arity pops; ~1 in 1e5 PRNG pickles",
  "C01b": "STACK_GLOBAL guard relaxed whenever an installed mutator reports is_unsafe(): needs protocol 4/5, safe mode, the typeconfusion mutator registered",
@@ -91,6 +93,15 @@ NEEDS = {
  "R6C1": "batch mode writes through OpenOptions without truncate: needs --dir pointing at a directory that already holds longer same-named files (written independently of R4C2)",
  "R6C2": "Stack::push records release handles for List, Dict and Instance only (Set forgotten): needs protocol >= 4 and a set that contains itself through a memoised tuple: EMPTY_SET DUP TUPLE1 MEMOIZE POP MARK BINGET 0 ADDITEMS",
  "R6C3": "EXT2 code computed as (u32::from(gen_u16()) + 1) as u16: wraps 0xFFFF to 0 (a panic from the existing debug_assert in debug builds): needs EXT enabled and the 16-bit draw 0xFFFF",
+ "R7A1": "the CLI sorts and deduplicates --mutators (enum order): the first applicable mutator is no longer the one the library would use: needs two mutators acting on the same value kind in non-enum order, or a duplicate",
+ "R7A2": "Stack::reset runs inner.clear() before release_cells(): reusing or resetting a generator after a pickle nested thousands of levels deep drops it recursively: native stack overflow (SIGABRT): needs deep nesting (NONE then TUPLE1 x 50000) and a second call",
+ "R7A3": "PickleMutator.reset() builds a new Generator(protocol, seed) instead of calling the native reset(): an opcode range set through mutator.generator.set_opcode_range() silently reverts: needs set range, reset(), mutate()",
+ "R7B1": "the MARK-closing loop of cleanup_for_stop skips a lone MARK and relies on a final check that pops the simulated stack without writing a byte: needs the body to end with exactly [MARK] (protocol 0 seed 17 range (1,1): `( N .`)",
+ "R7B2": "Stack::release_cells walks the registry newest-first: emptying the outermost container drops a deeply nested chain recursively: needs ~45k-150k nesting levels, then generate/reset/drop",
+ "R7B3": "the CLI sorts and dedups the --mutators kinds (written independently of R7A1)",
+ "R7C1": "fuzzer-mode gen_unit_f64 = bits / u64::MAX can return exactly 1.0 (independent rediscovery of C15d)",
+ "R7C2": "is_set_at_mark rewritten with iterators: skip_while(is_mark) where skip(1) was meant: on [.., set, MARK, MARK, item] ADDITEMS is allowed and targets the lower MARK: needs protocol 4/5 and that shape",
+ "R7C3": "BINGET with a memo above 256 entries picks from an unsorted key list (independent rediscovery of C07b/C07c)",
  "R2A3": "fuzzer-mode gen_unit_f64 = bits / u64::MAX, exactly 1.0 for bits >= 0xFFFFFFFFFFFFFC00: needs fuzzer-bytes mode, rate 1.0 and eight gate bytes above that threshold",
 }
 for d in sorted(NEEDS):
